@@ -14,20 +14,18 @@ from ..model import AnalysisError, iter_own_nodes, reachable
 from ..tables import rf24network as T
 from .c03 import Agg, value_matches
 from . import net, c07, c05
+from .common import iter_mutation_sites
 
-# raise-capable sites that the abstract domains cannot discharge, confirmed safe by reading (may-analysis residue)
-SAFE_SITES = {
-    # (function, normalised construct): reason
-    ("NetworkMixin._pipe_address", "index self.address_suffix[dec % 8]"):
-        "dec % 8 is an octal digit of a validated address, 0..5 by the validator's digit predicate (R15.3); 0 for the reserved multicast addresses",
-    ("NetworkMixin._pipe_address", "index self.address_suffix[count - 1]"):
-        "count - 1 is the digit count of the address, at most 4 by R15.3",
-    ("RF24Mesh.update", "struct struct.pack('<h', ret_val)"):
-        "ret_val is -2, a dhcp_dict key (node ID: one byte by protocol - header.reserved or a 1-byte file field) or a dhcp_dict value "
-        "(logical address: 12 bits, produced by _dhcp or loaded from a '<H' field below 0o5556): all fit a signed 16-bit field",
-    ("NetworkMixin._pipe_address", "index self.address_suffix[pipe_number]"):
-        "pipe numbers come from _logi_2_phys (0, 5 or the parent pipe = one validated digit 1..5) or range(6)",
-}
+# raise-capable sites that the abstract domains cannot discharge are judged by the *provenance of the value* (never by the text or the
+# position of the site, so moving or renaming code does not change the verdict)
+def table_value(v):
+    """is v an entry of the master's lease table?  Table invariant (C16): keys are node IDs - one byte by protocol (header.reserved or a
+    1-byte file field); values are logical addresses - 12 bits, produced by _dhcp (R16.1) or loaded from a '<H' field.  Both fit every
+    16-bit struct code."""
+    v = norm(v)
+    role = v.attrs.get("role") if isinstance(v, Sym) else None
+    return bool(role) and role[0] in ("dict-key", "dict-val") and str(role[1]).endswith("dhcp_dict")
+
 
 COLLECT = {"index", "itemstore", "unpack", "packarg", "mayraise", "raised", "to_bytes", "negindex", "pop"}
 
@@ -117,10 +115,10 @@ def pipe_address_capacity(ck, agg, max_digits):
             outs = nn.run(f, node, [a, Const(pipe)], st, limits=Limits(max_paths=6000, loop_unroll=8, depth=8, concrete_loop=12))
             for out in outs:
                 if out.kind == "raise":
-                    iters = len([e for e in out.trace if e.kind == "loop-iter" and e.func is f])
+                    iters = net.addr_digits(out)
                     agg.add("R15.1", f, "translating a validated address into a pipe address never raises", False,
                             "an address of %d octal digits passes is_address_valid() but makes `%s` raise %s (pipe %d)" % (
-                                iters + 1, ast.unparse(out.value.node)[:50] if out.value.node is not None else "?", out.value.exc, pipe), out.value.node)
+                                iters, ast.unparse(out.value.node)[:50] if out.value.node is not None else "?", out.value.exc, pipe), out.value.node)
                 else:
                     agg.add("R15.1", f, "translating a validated address into a pipe address never raises", True, "")
     return n
@@ -153,8 +151,8 @@ def collect_from(ck, agg, it, outs, label, fu, counter):
         fn = ev.func
         key = site_key(ev)
         fq = fn.qualname.split(":", 1)[1] if fn else "?"
-        if not ok and (fq, key) in SAFE_SITES:
-            agg.add("R15.1", fn, key + " [frozen: confirmed safe]", True, SAFE_SITES[(fq, key)], ev.node)
+        if not ok and ev.kind == "packarg" and ev.data[1] in ("h", "H") and table_value(ev.data[2]):
+            agg.add("R15.1", fn, "a lease-table entry is packed into a 16-bit field", True, "table invariant: one-byte node IDs, 12-bit addresses (C16)", ev.node)
             continue
         agg.add("R15.1", fn, key, ok, "%s: %s" % (label, why), ev.node)
     for out in outs:
@@ -265,7 +263,7 @@ def judge(ev):
         safe = d[4]
         return bool(safe), "store index %r may be out of range: IndexError" % (d[1],)
     if k == "unpack":
-        fmt, buf, ln, ok = d
+        fmt, buf, ln, ok = d[:4]
         return bool(ok), "struct.unpack(%r) may receive a buffer of length %r: struct.error" % (fmt, ln)
     if k == "packarg":
         fmt, code, v, ok = d
@@ -298,6 +296,9 @@ def loops(ck, agg):
             if f in seen:
                 continue
             seen.add(f)
+            for loop, stmt, what, ok in iter_mutation_sites(f.node):
+                agg.add("R15.6", f, "a container is not resized while update() iterates over it (RuntimeError / skipped entries)", ok,
+                        "%s (line %d) and the loop can go on to its next iteration" % (what, stmt.lineno), stmt)
             for node in iter_own_nodes(f.node):
                 if isinstance(node, ast.For):
                     n += 1
@@ -328,26 +329,52 @@ def classify_while(node, status_field=None):
     for b in ast.walk(node):
         if isinstance(b, ast.If) and has_clock(b.test) and any(isinstance(x, (ast.Break, ast.Return)) for x in ast.walk(b)):
             return "clock"
-    # consumes the RX FIFO: x = <radio>.read(); if x is None: return
+    # consumes the RX FIFO: x = <radio>.read(); if x is None: return / break   (the FIFO holds at most 3 payloads and the radio is
+    # not listening while update() runs a handler that transmits; assumption 2)
     for b in node.body:
         if isinstance(b, ast.Assign) and isinstance(b.value, ast.Call) and isinstance(b.value.func, ast.Attribute) and b.value.func.attr == "read":
             tgt = b.targets[0].id if isinstance(b.targets[0], ast.Name) else None
             for c in node.body:
                 if isinstance(c, ast.If) and isinstance(c.test, ast.Compare) and isinstance(c.test.left, ast.Name) and c.test.left.id == tgt \
-                        and isinstance(c.test.ops[0], ast.Is) and any(isinstance(x, ast.Return) for x in c.body):
+                        and isinstance(c.test.ops[0], ast.Is) and isinstance(c.test.comparators[0], ast.Constant) and c.test.comparators[0].value is None \
+                        and any(isinstance(x, (ast.Return, ast.Break)) for x in c.body):
                     return "fifo"
-    # strictly decreasing / shifting counter that the test reads, updated at the top level of the body
+    # monotone counter that the test reads, updated at the top level of the body with no `continue` before the update
     names = {x.id for x in ast.walk(node.test) if isinstance(x, ast.Name)} | {ast.unparse(x) for x in ast.walk(node.test) if isinstance(x, ast.Attribute)}
+    assigned = {}
+    for x in ast.walk(node):
+        if isinstance(x, (ast.Assign, ast.AugAssign, ast.AnnAssign)):
+            for t in (x.targets if isinstance(x, ast.Assign) else [x.target]):
+                for y in ast.walk(t):
+                    if isinstance(y, (ast.Name, ast.Attribute)):
+                        assigned[ast.unparse(y)] = assigned.get(ast.unparse(y), 0) + 1
+    skipped = False
     for b in node.body:
-        if isinstance(b, ast.AugAssign) and ast.unparse(b.target) in names:
-            if isinstance(b.op, ast.Sub) and isinstance(b.value, ast.Constant) and b.value.value > 0:
+        if isinstance(b, ast.AugAssign) and ast.unparse(b.target) in names and not skipped and assigned.get(ast.unparse(b.target)) == 1:
+            tname = ast.unparse(b.target)
+            step = b.value.value if isinstance(b.value, ast.Constant) and isinstance(b.value.value, int) else None
+            if isinstance(b.op, ast.Sub) and step and step > 0:
                 return "counter"
-            if isinstance(b.op, ast.RShift) and isinstance(b.value, ast.Constant) and b.value.value > 0:
+            if isinstance(b.op, ast.RShift) and step and step > 0:
                 return "shift"
-        if isinstance(b, ast.Assign) and len(b.targets) == 1 and ast.unparse(b.targets[0]) in names and isinstance(b.value, ast.BinOp) and isinstance(b.value.op, ast.BitAnd):
+            if isinstance(b.op, ast.Add) and step and step > 0 and isinstance(node.test, ast.Compare) and len(node.test.ops) == 1:
+                # `i < bound` / `i <= bound` / `bound > i` with a bound the loop does not change
+                l, op, r = node.test.left, node.test.ops[0], node.test.comparators[0]
+                if isinstance(op, (ast.Lt, ast.LtE)) and ast.unparse(l) == tname:
+                    bound = r
+                elif isinstance(op, (ast.Gt, ast.GtE)) and ast.unparse(r) == tname:
+                    bound = l
+                else:
+                    bound = None
+                if bound is not None and not any(ast.unparse(y) in assigned for y in ast.walk(bound) if isinstance(y, (ast.Name, ast.Attribute))) \
+                        and not any(isinstance(y, ast.Call) for y in ast.walk(bound)):
+                    return "counter-up"
+        if isinstance(b, ast.Assign) and len(b.targets) == 1 and ast.unparse(b.targets[0]) in names and isinstance(b.value, ast.BinOp) and isinstance(b.value.op, ast.BitAnd) and not skipped:
             inner = b.value.left
             if isinstance(inner, ast.BinOp) and isinstance(inner.op, ast.LShift):
                 return "shift-out"  # mask = (mask << 3) & 0xFFFF: at most 16/3 iterations
+        if any(isinstance(x, ast.Continue) for x in ast.walk(b)):
+            skipped = True
     return None
 
 
